@@ -22,8 +22,8 @@ ASSUMPTIONS = [
     'lifecycle hooks do not raise (C03 covers those)',
 ]
 BUDGET = {
-    'quick': {'enum': ['k1', 'k2', 'self2', 'listener', 'wc1', 'wc2', 'reload'], 'hyp': 6000, 'shards': 8},
-    'thorough': {'enum': ['k1', 'k2', 'k3', 'k4w', 'self3', 'listener', 'listener2', 'wc1', 'wc2', 'reload'], 'hyp': 200000, 'shards': 16},
+    'quick': {'enum': ['k1', 'k2', 'self2', 'listener', 'wc1', 'wc2', 'reload', 'tasks'], 'hyp': 6000, 'shards': 8},
+    'thorough': {'enum': ['k1', 'k2', 'k3', 'k4w', 'self3', 'listener', 'listener2', 'wc1', 'wc2', 'reload', 'tasks'], 'hyp': 200000, 'shards': 16},
 }
 
 ALPHABET = [['pause', 'p'], ['play'], ['kill', 'kt'], ['resume', 1], ['cancel']]
@@ -48,6 +48,16 @@ def enumerate_cases(tier, scope):
                     yield {'program': cat[name], 'schedule': pre + [['reload']] + sched, 'tag': f'reload:{name}'}
                 for sched in gen.schedules(ALPHABET, 2, 1):
                     yield {'program': cat[name], 'schedule': pre + [['reload']] + sched, 'tag': f'reload:{name}'}
+    elif scope == 'tasks':
+        # the caller cancels the task that steps the process (a timeout on step_until_terminated()) and may step it
+        # again later: kills before, in between and after must still work
+        alpha = [['pause', 'p'], ['play'], ['kill', 'kt'], ['cancel'], ['cancel_task'], ['restep']]
+        for name in ('async2', 'wait1', 'gated', 'chain'):
+            for k in (2, 3):
+                for sched in gen.schedules(alpha, k, 2):
+                    if not any(ev[0] == 'cancel_task' for ev in sched) or not any(ev[0] in ('kill', 'cancel') for ev in sched):
+                        continue
+                    yield {'program': cat[name], 'schedule': sched, 'tag': f'tasks:{name}'}
     elif scope == 'k4w':
         for name in ('wait1', 'waitwait', 'async2'):
             for sched in gen.schedules(ALPHABET, 4, 1):
@@ -91,7 +101,7 @@ def enumerate_cases(tier, scope):
 @st.composite
 def _cases(draw, tier):
     prog = draw(gen.programs(max_steps=4 if tier == 'quick' else 6, self_calls=('pause', 'play', 'kill', 'cancel'), soon=True))
-    sched = draw(gen.control_schedules(['pause', 'play', 'kill', 'kill', 'resume', 'cancel', 'open', 'reload'], max_events=4, max_gap=4))
+    sched = draw(gen.control_schedules(['pause', 'play', 'kill', 'kill', 'resume', 'cancel', 'open', 'reload', 'cancel_task', 'restep'], max_events=4, max_gap=4))
     plans = draw(gen.listener_plans(['kill', 'pause', 'play'])) if draw(st.booleans()) else []
     return {'program': prog, 'schedule': sched, 'listener': plans}
 
